@@ -2,6 +2,7 @@
 
 Behaviour = basename of the executable that exec'd this file (see the stubs next to it):
   ok reorder garbage_empty garbage_ragged garbage_missing garbage_length garbage_tree exit3 hang
+  sigkill (writes complete, valid output, then dies by SIGKILL: negative return code)
 Environment (inherited through Popen):
   C20_GATE     path; the tool blocks until this file exists (so the harness decides when it "finishes")
   C20_LOG      path; the tool appends what it produced (JSON lines), the oracle reads it
@@ -55,6 +56,14 @@ def main():
     def opt(name):
         return args[args.index(name) + 1] if name in args else None
 
+    def die():
+        """Killed by a signal *after* everything was written: Popen.returncode is -9."""
+        import signal
+        sys.stdout.flush()
+        emit(event="exit", code=-9)
+        os.kill(os.getpid(), signal.SIGKILL)
+        time.sleep(60)
+
     to_stdout = False
     trees = []
     distmat_out = None
@@ -72,6 +81,8 @@ def main():
         trees = [inp + ".tree"]
     elif "--plain" in args:                  # bare LocalApp: no files at all
         sys.stdout.write("plain output\n")
+        if behaviour == "sigkill":
+            die()
         emit(event="exit", code=0)
         return 0
     else:
@@ -115,6 +126,8 @@ def main():
     if distmat_out:
         with open(distmat_out, "w") as f:
             f.write(f"{n}\n" + "".join(f"{i} " + " ".join("0.0" if i == j else "1.0" for j in range(n)) + "\n" for i in range(n)))
+    if behaviour == "sigkill":
+        die()
     emit(event="exit", code=0, rows=rows, order=[r[0] for r in rows], trees=trees)
     return 0
 
